@@ -49,7 +49,8 @@ class C18(PropBase):
         own = None
         if rng.random() < 0.2:
             rid += 1
-            own = gen.rand_payload(rng, rng.randrange(1, 6))
+            # (a multi-frame payload leaves the listener's own transmitter busy - waiting for a Flow Control, pacing, parked - while traffic goes by)
+            own = gen.rand_payload(rng, rng.choice([1, 2, 3, 4, 5, 20, 45, 100]))
             ops.append({'op': 'send', 'i': 2, 'id': rid, 'data': own})
         dt = max(ref.stmin_ns(pb.get('stmin', 0)) or 0, ref.stmin_ns(pa.get('stmin', 0)) or 0, 1000000) + 1
         garbage = rng.random() < 0.3
@@ -104,7 +105,7 @@ class C18(PropBase):
             p = cfg['params']
             exp = ref.segment(own, prefix=ref.tx_prefix(ref.half(cfg['addr'], 'tx')), txdl=p.get('tx_data_length', 8),
                               minlen=p.get('tx_data_min_length'), padding=p.get('tx_padding'))
-        if tx2 != exp:
+        if (tx2 != exp) if len(exp) <= 1 else (tx2 != exp[:len(tx2)] or not tx2):
             out.append(('silent', 'listener emitted %s; only the segmentation of its own send() is allowed (%s)' % (
                 [x.hex() for x in tx2][:3], [x.hex() for x in exp])))
         if timed_out:
